@@ -1,0 +1,154 @@
+//! Verification hooks (cargo feature `verif`, off by default). Additive only: a read-only
+//! rendering of the dynamic state of `Kanata`, and a way to drive the real private
+//! `handle_time_ticks` with a caller-chosen elapsed time instead of the wall clock.
+use super::*;
+use std::fmt::Write;
+
+impl Kanata {
+    /// Renders every dynamic field (except the output log, the wall-clock `last_tick` and saved
+    /// clipboard contents) into `out`. Unordered collections are rendered sorted.
+    pub fn verif_digest(&self, out: &mut String, age_cap: u16, since_cap: u16) {
+        self.layout.b().verif_digest(out, age_cap, since_cap);
+        let _ = write!(
+            out,
+            "K:cfg={};ck={:?};pk={:?};pl={};",
+            self.cur_cfg_idx, self.cur_keys, self.prev_keys, self.prev_layer
+        );
+        for s in [&self.scroll_state, &self.hscroll_state] {
+            match s {
+                None => {
+                    let _ = write!(out, "sc=None;");
+                }
+                Some(s) => {
+                    let _ = write!(
+                        out,
+                        "sc=({:?},{},{},{});",
+                        s.direction, s.interval, s.ticks_until_scroll, s.distance
+                    );
+                }
+            }
+        }
+        for s in [
+            &self.move_mouse_state_vertical,
+            &self.move_mouse_state_horizontal,
+        ] {
+            match s {
+                None => {
+                    let _ = write!(out, "mm=None;");
+                }
+                Some(s) => {
+                    let _ = write!(
+                        out,
+                        "mm=({:?},{},{},{},{:?});",
+                        s.direction,
+                        s.interval,
+                        s.ticks_until_move,
+                        s.distance,
+                        s.move_mouse_accel_state.map(|a| (
+                            a.accel_ticks_from_min,
+                            a.accel_ticks_until_max,
+                            a.accel_increment.to_bits(),
+                            a.min_distance,
+                            a.max_distance
+                        ))
+                    );
+                }
+            }
+        }
+        let _ = write!(
+            out,
+            "mms={:?};mmb={:?};",
+            self.move_mouse_speed_modifiers,
+            self.movemouse_buffer.as_ref().map(|(a, m)| (
+                matches!(a, Axis::Vertical),
+                m.direction,
+                m.distance
+            ))
+        );
+        let ss = &self.sequence_state;
+        let _ = write!(
+            out,
+            "seq=({:?},{:?},{:?},{:?},{},{},{:?},{});",
+            ss.raw_oscs,
+            ss.sequence,
+            ss.overlapped_sequence,
+            ss.sequence_input_mode,
+            ss.ticks_until_timeout,
+            ss.sequence_timeout,
+            ss.activity,
+            ss.verif_noerase_count()
+        );
+        let mut dm: Vec<_> = self.dynamic_macros.iter().collect();
+        dm.sort_by_key(|(k, _)| **k);
+        let _ = write!(out, "dm={:?};", dm);
+        verif_render_replay_state(&self.dynamic_macro_replay_state, out);
+        verif_render_record_state(&self.dynamic_macro_record_state, out);
+        let _ = write!(
+            out,
+            "ovs={:?};lrr={};",
+            self.override_states, self.live_reload_requested
+        );
+        match &self.caps_word {
+            None => {
+                let _ = write!(out, "cw=None;");
+            }
+            Some(cw) => {
+                let mut a: Vec<_> = cw.keys_to_capitalize.iter().map(|k| *k as u16).collect();
+                a.sort();
+                let mut b: Vec<_> = cw.keys_nonterminal.iter().map(|k| *k as u16).collect();
+                b.sort();
+                let _ = write!(out, "cw=({:?},{:?},{},{});", a, b, cw.timeout, cw.timeout_ticks);
+            }
+        }
+        let mut wfi: Vec<String> = self
+            .waiting_for_idle
+            .iter()
+            .map(|w| format!("{:?}", w))
+            .collect();
+        wfi.sort();
+        let mut vpr: Vec<(u8, u16, u16)> = self
+            .vkeys_pending_release
+            .iter()
+            .map(|(c, d)| (c.x, c.y, *d))
+            .collect();
+        vpr.sort();
+        let _ = write!(
+            out,
+            "wfi={:?};vpr={:?};tsi={};umk={:?};umm={:?};ush={:?};lpk={:?};mopc={};",
+            wfi,
+            vpr,
+            self.ticks_since_idle,
+            self.unmodded_keys,
+            self.unmodded_mods,
+            self.unshifted_keys,
+            self.last_pressed_key,
+            self.macro_on_press_cancel_duration
+        );
+        #[cfg(feature = "zippychord")]
+        output_logic::verif_zippy_digest(out);
+    }
+
+    /// Whether a live reload has been requested and not yet carried out.
+    pub fn verif_live_reload_requested(&self) -> bool {
+        self.live_reload_requested
+    }
+
+    /// Calls the real `handle_time_ticks` after arranging that it observes (approximately)
+    /// `ms` elapsed milliseconds: `last_tick` is set to `now - ms` and the sub-millisecond
+    /// remainder is cleared. Returns what `handle_time_ticks` returns (the elapsed ticks it
+    /// computed), so that the caller can detect a mismatch with the requested value.
+    pub fn verif_handle_time_ticks(
+        &mut self,
+        ms: u64,
+        tx: &Option<Sender<ServerMessage>>,
+    ) -> Result<u16> {
+        self.time_remainder = 0;
+        // 200us margin keeps the computed elapsed at exactly `ms` unless the thread is
+        // descheduled for >800us between here and the clock read inside handle_time_ticks.
+        let back = time::Duration::from_millis(ms) + time::Duration::from_micros(200);
+        self.last_tick = instant::Instant::now()
+            .checked_sub(back)
+            .expect("subtract from current time");
+        self.handle_time_ticks(tx)
+    }
+}
